@@ -5,6 +5,7 @@ import (
 	"net/netip"
 	"strings"
 
+	"github.com/AdguardTeam/urlfilter/filterutil"
 	"github.com/AdguardTeam/urlfilter/rules"
 	"github.com/miekg/dns"
 )
@@ -136,6 +137,26 @@ func init() {
 			}
 			for _, v := range rewriteValues {
 				emit("v" + hx(v))
+			}
+			// different values with the same 32-bit hash, parsed one after the other in one process, a valid one first:
+			// what a value parses to is a function of its text (djb2-xor collides on two-character infixes)
+			for _, shape := range [][2]string{{"noerror;cname;", "zz.example.net"}, {"NOERROR;TXT;v=spf1 -all ", "q"}, {"NOERROR;MX;10 mx", ".example.net"}, {"", ".example.net"}, {"10.188.17", ""}, {"NOERROR;A;1.2.3.", ""}} {
+				seen := map[uint32]string{}
+				al := "abcdefghijklmnopqrstuvwxyz0123456789!_."
+				found := 0
+				for a := 0; a < len(al) && found < 3; a++ {
+					for b := 0; b < len(al) && found < 3; b++ {
+						v := shape[0] + string(al[a]) + string(al[b]) + shape[1]
+						h := filterutil.FastHash(v)
+						if o, ok := seen[h]; ok {
+							found++
+							emit("v" + hx(o))
+							emit("v" + hx(v))
+							emit("v" + hx(o))
+						}
+						seen[h] = v
+					}
+				}
 			}
 			for i := 0; i < n; i++ {
 				emit("v" + hx(genRewriteValue(g)))
